@@ -27,7 +27,7 @@ fn gen_value(c: &mut Choices<'_>, key: &str) -> String {
         "newline_style" => (*c.pick(&["Unix", "Windows", "Native", "Auto"])).to_string(),
         "imports_granularity" => (*c.pick(&["Crate", "Module", "Item", "One", "Preserve"])).to_string(),
         "fn_params_layout" | "fn_args_layout" => (*c.pick(&["Compressed", "Tall", "Vertical"])).to_string(),
-        "fn_call_width" | "chain_width" => c.below(220).to_string(),
+        "fn_call_width" | "chain_width" | "attr_fn_like_width" | "struct_lit_width" | "struct_variant_width" | "array_width" | "single_line_if_else_max_width" | "single_line_let_else_max_width" => c.below(220).to_string(),
         "use_small_heuristics" => (*c.pick(&["Default", "Max", "Default", "Off"])).to_string(),
         "edition" => (*c.pick(&["2015", "2018", "2021", "2024"])).to_string(),
         "style_edition" => (*c.pick(&["2015", "2018", "2021", "2024"])).to_string(),
@@ -39,7 +39,10 @@ fn gen_value(c: &mut Choices<'_>, key: &str) -> String {
 const KEYS: &[&str] = &[
     "max_width", "tab_spaces", "hard_tabs", "brace_style", "reorder_imports", "newline_style", "imports_granularity", "fn_params_layout", "fn_call_width", "chain_width", "use_small_heuristics", "edition", "style_edition", "version",
     "merge_imports", "fn_args_layout", "hide_parse_errors", "show_parse_errors",
+    "attr_fn_like_width", "struct_lit_width", "struct_variant_width", "array_width", "single_line_if_else_max_width", "single_line_let_else_max_width",
 ];
+
+const WIDTH_KEYS: &[&str] = &["fn_call_width", "attr_fn_like_width", "struct_lit_width", "struct_variant_width", "array_width", "chain_width", "single_line_if_else_max_width", "single_line_let_else_max_width"];
 
 fn gen_kv(c: &mut Choices<'_>, max: usize) -> KV {
     let n = c.below(max + 1);
@@ -178,7 +181,7 @@ fn model(file: &KV, cli: &KV, flag_edition: Option<&str>, flag_style: Option<&st
     // (see `run`), except under `Max` where they equal max_width
     let max_width: usize = m.get("max_width").and_then(|v| v.parse().ok()).unwrap_or(100);
     let heur = m.get("use_small_heuristics").cloned().unwrap_or_else(|| "Default".into());
-    for k in ["fn_call_width", "chain_width"] {
+    for k in WIDTH_KEYS.iter().copied() {
         match pick(k) {
             Some(v) => {
                 m.insert(k.into(), v.parse::<usize>().unwrap_or(0).min(max_width).to_string());
@@ -194,7 +197,7 @@ fn model(file: &KV, cli: &KV, flag_edition: Option<&str>, flag_style: Option<&st
     m
 }
 
-const PROBES: &[&str] = &["max_width", "tab_spaces", "hard_tabs", "brace_style", "reorder_imports", "newline_style", "use_small_heuristics", "imports_granularity", "fn_params_layout", "show_parse_errors", "fn_call_width", "chain_width", "style_edition", "edition", "version"];
+const PROBES: &[&str] = &["max_width", "tab_spaces", "hard_tabs", "brace_style", "reorder_imports", "newline_style", "use_small_heuristics", "imports_granularity", "fn_params_layout", "show_parse_errors", "fn_call_width", "chain_width", "attr_fn_like_width", "struct_lit_width", "struct_variant_width", "array_width", "single_line_if_else_max_width", "single_line_let_else_max_width", "style_edition", "edition", "version"];
 
 fn run_bin(r: &RunCtx, cwd: &Path, home: &Path, xdg: &Path, args: &[String], stdin: Option<&str>) -> Option<(Option<i32>, String, String)> {
     use std::io::Write;
@@ -237,7 +240,7 @@ impl Property for C14 {
         }
     }
     fn rule(&self) -> &'static str {
-        "generated directory layouts (three nested levels, each with none / rustfmt.toml / .rustfmt.toml / both, plus $HOME and $XDG_CONFIG_HOME/rustfmt) whose configuration files set random subsets of 18 options incl. the deprecated aliases, x CLI part (--config-path file or directory, --config k=v,.., --edition, --style-edition) x 1..3 input files from different levels in every order; the real binary's `--print-config current FILE` is compared with a reference model of the documented resolution (nearest file, dotted name first, home, user-config; --config-path wholesale; CLI over file; defaults of the effective style edition; aliases only when the successor is unset; explicit widths clamped to max_width, unset ones from use_small_heuristics) and every printed width is checked against max_width; further cases: the same (option, value) through a file, through --config and through the API gives identical formatted text; --print-config default/current written back as a configuration file prints the same text again (per-file configurations inside one multi-file invocation are C15's subject); non-trivial = at least two sources disagree on a probed option and the winner is not the default; distinct by case content"
+        "generated directory layouts (three nested levels, each with none / rustfmt.toml / .rustfmt.toml / both, plus $HOME and $XDG_CONFIG_HOME/rustfmt) whose configuration files set random subsets of 24 options incl. the deprecated aliases and all eight width limits, x CLI part (--config-path file or directory, --config k=v,.., --edition, --style-edition) x 1..3 input files from different levels in every order; the real binary's `--print-config current FILE` is compared with a reference model of the documented resolution (nearest file, dotted name first, home, user-config; --config-path wholesale; CLI over file; defaults of the effective style edition; aliases only when the successor is unset; explicit widths clamped to max_width, unset ones from use_small_heuristics) and every printed width is checked against max_width; further cases: the same (option, value) through a file, through --config and through the API gives identical formatted text; --print-config default/current written back as a configuration file prints the same text again (per-file configurations inside one multi-file invocation are C15's subject); non-trivial = at least two sources disagree on a probed option and the winner is not the default; distinct by case content"
     }
     fn assumptions(&self) -> Vec<&'static str> {
         vec!["the default values per style edition are read from the library (Config::default_for_possible_style_edition); C09 guards them", "the same option is never supplied through a dedicated flag and --config in one invocation"]
@@ -403,7 +406,7 @@ impl Property for C14 {
                         if w.is_some() && w != g {
                             // a width limit that exceeds the max_width of its own file is outside
                             // the documented domain; rustfmt clamps it when the file is loaded
-                            if matches!(*k, "fn_call_width" | "chain_width") && get(&cli, k).is_none() {
+                            if WIDTH_KEYS.contains(k) && get(&cli, k).is_none() {
                                 if let Some(fv) = get(&base_kv, k).and_then(|v| v.parse::<usize>().ok()) {
                                     let file_max = get(&base_kv, "max_width").and_then(|v| v.parse::<usize>().ok()).unwrap_or(100);
                                     let final_max: usize = want.get("max_width").and_then(|v| v.parse().ok()).unwrap_or(100);
